@@ -72,9 +72,10 @@ let run raw kvs =
       let tokened = (DeriveCode.key_hint cf tbl = Tables.DvHintU16) in
       let kv = Stdlib.List.map (wire_kv tokened) (split ';' kvs) in
       let out = show sp (DeriveCode.visit_raw cf tbl kv) in
-      (* the bridge theorem C18_code_visit_raw_is_visit_attrs, run *)
+      (* the bridge theorem C18_code_visit_raw_is_visit_attrs, run (it is about the expected facts: when lib.rs changed a
+         fact the model follows the code and the hand-written DeriveMacro model does not) *)
       let plain = Stdlib.List.for_all (fun (k, _) -> match k with DeriveCode.WVia _ -> false | _ -> true) kv in
-      if plain then begin
+      if plain && cf = DeriveCode.expected_facts then begin
         let kv' = Stdlib.List.map (fun (k, r) -> ((match k with DeriveCode.WStr s -> Derive.KStr s | DeriveCode.WU16 t -> Derive.KTok t | _ -> assert false), r)) kv in
         let out' = show sp (DeriveMacro.visit_attrs (Stdlib.List.map DeriveCode.attrs_of_raw tbl) kv') in
         if out' <> out then "BRIDGE-DIFF" else out
